@@ -234,12 +234,13 @@ def _width_residue():
     return out
 
 
-def rule_r_width(prog, res, floor_put=600, floor_parse=480):
+def rule_r_width(prog, res, floor_put=600, floor_parse=480, which=("put", "parse")):
     """R-width: at every put::<IT>(_, w) / parse::<IT>(w) call site of the crate, w lies in [1, BITS(IT)]."""
     nput = nparse = 0
     for p in sorted(prog.fns):
         f = prog.fns[p]
-        sites = [(b, t) for b, t in f.calls() if callee_of(t) in (PUT, PARSE)]
+        wanted = tuple(x for x, n in ((PUT, "put"), (PARSE, "parse")) if n in which)
+        sites = [(b, t) for b, t in f.calls() if callee_of(t) in wanted]
         if not sites:
             continue
         res.fn(f)
@@ -275,8 +276,10 @@ def rule_r_width(prog, res, floor_put=600, floor_parse=480):
                    sample={"site": p, "carrier": name, "width": wi})
     active = set(prog.crate["features"])
     if "all_msgs" in active:
-        res.floor("R-width", "put call sites", nput, floor_put)
-        res.floor("R-width", "parse call sites", nparse, floor_parse)
+        if "put" in which:
+            res.floor("R-width", "put call sites", nput, floor_put)
+        if "parse" in which:
+            res.floor("R-width", "parse call sites", nparse, floor_parse)
     return nput, nparse
 
 
